@@ -79,6 +79,24 @@ struct JSON {
       private:
         using JSONotation = JSONUtils::JSONotation_T<Char_T>;
 
+        // True if the last of the 'length' units is a quote that is not escaped (an even number of '\' before it).
+        static bool isClosed(const Char_T *str, SizeT length) noexcept {
+            --length;
+
+            if (str[length] != JSONotation::QuoteChar) {
+                return false;
+            }
+
+            bool escaped = false;
+
+            while ((length != 0) && (str[length - SizeT{1}] == JSONotation::BSlashChar)) {
+                escaped = !escaped;
+                --length;
+            }
+
+            return !escaped;
+        }
+
         static ValueT parseObject(Stream_T &stream, const Char_T *content, SizeT &offset, const SizeT length) {
             using ObjectT = typename ValueT::ObjectT;
 
@@ -204,7 +222,8 @@ struct JSON {
                     const Char_T *str = (content + offset);
                     SizeT         len = JSONUtils::UnEscape(str, (length - offset), stream);
 
-                    if (len != 0) {
+                    // UnEscape() also stops at the end of the text; a string has to end with its own quote.
+                    if ((len != 0) && isClosed(str, len)) {
                         offset += len;
                         --len;
 
